@@ -47,6 +47,7 @@ THEOREMS = [
     "Nix.C13.parent_supplied_code",
     "Nix.C13.parent_source_ids_code",
     "Nix.C13.referring_ids_match",
+    "Nix.C13.referring_ids_code",
 ]
 ASSUMPTIONS = [
     "entities are identified by a key (creation counter) standing for the uuid; uuid4 freshness is assumed; ids "
